@@ -262,24 +262,24 @@ func tryReplay(w *World, verifDir, prop string, o *Obligation, path string) bool
 		vals[in.Name] = pairValue(pairs[i])
 	}
 	// build the call
-	if fn.Signature.Recv() != nil || fn.Parent() != nil {
-		rec["replay"] = "generic adapter handles package-level functions only"
-		save()
-		return scenarioReplay(w, verifDir, prop, o, rec, save)
-	}
 	var args []string
 	var concrete []concreteInput
+	allOK := true
 	for _, p := range fn.Params {
 		lit, raw, ok := goLiteral(p.Type(), p.Name(), vals)
 		if !ok {
-			rec["replay"] = "parameter " + p.Name() + " of type " + p.Type().String() + " cannot be materialised by the generic adapter"
-			save()
-			return scenarioReplay(w, verifDir, prop, o, rec, save)
+			allOK = false
+			continue
 		}
 		args = append(args, lit)
 		concrete = append(concrete, concreteInput{p.Name(), p.Type().String(), raw})
 	}
 	rec["input"] = concrete
+	if fn.Signature.Recv() != nil || fn.Parent() != nil || !allOK {
+		rec["replay"] = "generic adapter handles package-level functions with scalar / []byte parameters only"
+		save()
+		return scenarioReplay(w, verifDir, prop, o, rec, save)
+	}
 	var lhs string
 	if n := fn.Signature.Results().Len(); n > 0 {
 		lhs = strings.TrimSuffix(strings.Repeat("_, ", n), ", ") + " = "
@@ -327,7 +327,7 @@ func tail(s string, n int) string {
 
 // runOverlayTest injects a test file into a package of the repository (without writing into it)
 // and runs one test. Returns the output and whether the test run failed.
-func runOverlayTest(repo, pkgDir, fileName, src, testName string, timeoutSec int) (string, bool) {
+func runOverlayTest(repo, pkgDir, fileName, src, testName string, timeoutSec int, env ...string) (string, bool) {
 	tmp, err := os.MkdirTemp("", "lbvc-replay-")
 	if err != nil {
 		return err.Error(), false
@@ -345,6 +345,7 @@ func runOverlayTest(repo, pkgDir, fileName, src, testName string, timeoutSec int
 	cmd := exec.CommandContext(ctx, "go", "test", "-tags", "verif", "-overlay", ovPath, "-vet=off", "-count=1",
 		"-timeout", fmt.Sprintf("%ds", timeoutSec), "-run", "^"+testName+"$", "-v", "./"+rel)
 	cmd.Dir = repo
+	cmd.Env = append(os.Environ(), env...)
 	var out bytes.Buffer
 	cmd.Stdout = &out
 	cmd.Stderr = &out
@@ -372,7 +373,7 @@ func scenarioReplay(w *World, verifDir, prop string, o *Obligation, rec map[stri
 		return false
 	}
 	for _, sc := range scs {
-		if sc.Obligation != o.Name || (sc.Property != "" && sc.Property != prop) {
+		if (sc.Obligation != o.Name && sc.Obligation != "fn:"+o.Fn) || (sc.Property != "" && sc.Property != prop) {
 			continue
 		}
 		src, err := os.ReadFile(filepath.Join(verifDir, "replay", sc.File))
@@ -383,7 +384,9 @@ func scenarioReplay(w *World, verifDir, prop string, o *Obligation, rec map[stri
 		if to == 0 {
 			to = 240
 		}
-		out, failed := runOverlayTest(w.Repo, filepath.Join(w.Repo, sc.Package), "zz_lbvc_scenario_test.go", string(src), sc.Test, to)
+		inJSON, _ := json.Marshal(rec["input"])
+		out, failed := runOverlayTest(w.Repo, filepath.Join(w.Repo, sc.Package), "zz_lbvc_scenario_test.go", string(src), sc.Test, to,
+			"LBVC_INPUT="+string(inJSON), "LBVC_OBLIGATION="+o.Name)
 		rec["scenario"] = sc.File + ":" + sc.Test
 		rec["replay_output"] = tail(out, 6000)
 		if failed && strings.Contains(out, "LBVC-REPRODUCED") {
